@@ -16,6 +16,15 @@ CHECKS = {
         "front end repeats symmetrically are covered by C09/C04, not here. Shared transcendental kernels: only which intrinsic/arguments is checked.",
         "DESIGN.md §5 C01, appendix A",
     ),
+    "C02": (
+        "reference-model monitor: C-like reference interpreter (MSL dialect) over the Metal syntax tree from the exporter hook vs. irexec on the source IR; structural monitor of global threading",
+        "Every function of thousands of generated programs (no double) and of directed call-graph / aliasing programs is executed on the "
+        "source IR and on the Metal syntax tree the generator hands to the formatter (references, metal:: builtins, trampolines, threaded "
+        "globals bound to harness storage): results, out/inout values and static/groupshared storage must be bit identical; the extra "
+        "parameters of every emitted function must equal the globals it transitively needs (independent IR walk), by reference.",
+        "No Metal compiler in the sandbox: the pre-print tree is interpreted. metal:: semantics from the MSL specification; cases where HLSL and Metal differ on NaN / zero sign are discarded.",
+        "DESIGN.md §5 C02, appendix A",
+    ),
     "C03": (
         "invariant monitor on returned state: independent re-typing of every accepted IR module + single-fault injection table",
         "Every module the type checker accepts (unit-test snippets, corpus, thousands of generated programs) is re-typed expression by "
